@@ -2,6 +2,7 @@
    operations emitted for a text span always write exactly the span's columns, however the
    span's ends fall relative to double-width and zero-width characters. *)
 From Coq Require Import ZArith List Bool Lia.
+From Tickit Require Utf8Spec Utf8Tables.
 From Tickit Require Import RectDefs RBDefs RBSpec RBLemmas Gen_Linechars RBFlushDefs RBFlushSpec.
 Import ListNotations.
 Local Open Scope Z_scope.
@@ -26,10 +27,7 @@ Qed.
 
 Lemma cpw_le2 : forall c, cpw c <= 2.
 Proof.
-  intros c. unfold cpw.
-  destruct ((32 <=? c) && (c <=? 126)); [lia|]. destruct ((161 <=? c) && (c <=? 255)); [lia|].
-  destruct ((768 <=? c) && (c <=? 879)); [lia|]. destruct ((9472 <=? c) && (c <=? 9599)); [lia|].
-  destruct ((65281 <=? c) && (c <=? 65376)); lia.
+  intros c. unfold cpw. destruct (_ || _); [lia|]. pose proof (Utf8Tables.spec_width_range c). lia.
 Qed.
 
 Lemma tw_nonneg : forall l, valid l -> 0 <= tw l.
